@@ -22,3 +22,97 @@ pub fn observers(t: &mut Tape<'_>, cfg: &mut Cfg, max_sels: usize, max_docs: usi
         cfg.docs.push(DocSpec { doctype: mask & 1 != 0, comments: mask & 2 != 0, text: mask & 4 != 0, end: mask & 8 != 0, ops: vec![] });
     }
 }
+
+use crate::obs::{CT, Kind, Op, ScriptOp};
+
+pub const STRS: &[&str] = &[
+    "X", "", "<b>", "</div>", "a&b", "<!--", "-->", "\"q\"", "'", "x y", "é", "😀", "<script>", "</script>", "&lt;", "]]>", "\u{0}", "a=b", "/>", "<p>in</p>", "T1", "T2", "T3",
+];
+pub const ATTR_NAMES: &[&str] = &["id", "class", "href", "data-x", "A", "x:y", "b", "e", "bad name", "", "a=b", "q\"", "é"];
+pub const TAG_NAMES: &[&str] = &["div", "span", "x-y", "B", "section", "1bad", "", "a b", "a>", "é", "zé"];
+
+pub fn gstr(t: &mut Tape<'_>) -> String {
+    t.pick(STRS).to_string()
+}
+pub fn ct(t: &mut Tape<'_>) -> CT {
+    if t.chance(1, 2) { CT::Text } else { CT::Html }
+}
+
+fn element_op(t: &mut Tape<'_>) -> Op {
+    match t.below(16) {
+        0 => Op::Before(gstr(t), ct(t)),
+        1 => Op::After(gstr(t), ct(t)),
+        2 => Op::Prepend(gstr(t), ct(t)),
+        3 => Op::Append(gstr(t), ct(t)),
+        4 => Op::SetInner(gstr(t), ct(t)),
+        5 => Op::Replace(gstr(t), ct(t)),
+        6 => Op::Remove,
+        7 => Op::RemoveKeep,
+        8 => Op::SetAttr(t.pick(ATTR_NAMES).to_string(), gstr(t)),
+        9 => Op::RemoveAttr(t.pick(ATTR_NAMES).to_string()),
+        10 => Op::SetTagName(t.pick(TAG_NAMES).to_string()),
+        11 => Op::StartBefore(gstr(t), ct(t)),
+        12 => Op::StartAfter(gstr(t), ct(t)),
+        13 => Op::StreamBefore(vec![gstr(t), gstr(t)], ct(t)),
+        14 => Op::StreamAfter(vec![gstr(t), gstr(t)], ct(t)),
+        _ => Op::OnEndTag(vec![token_op(t)]),
+    }
+}
+
+fn token_op(t: &mut Tape<'_>) -> Op {
+    match t.below(6) {
+        0 => Op::Before(gstr(t), ct(t)),
+        1 => Op::After(gstr(t), ct(t)),
+        2 => Op::Replace(gstr(t), ct(t)),
+        3 => Op::Remove,
+        4 => Op::StreamReplace(vec![gstr(t), gstr(t)], ct(t)),
+        _ => Op::SetText(gstr(t)),
+    }
+}
+
+/// Add fragmentation-independent mutation scripts to the handlers already in `cfg` (or add a
+/// mutating handler if there is none). Text ops act on the `last_in_text_node` chunk, or
+/// `remove()` every chunk.
+pub fn mutators(t: &mut Tape<'_>, cfg: &mut Cfg) {
+    if cfg.sels.is_empty() || t.chance(1, 3) {
+        cfg.sels.push(SelSpec { sel: t.pick(SPARSE_SELECTORS).to_string(), ..Default::default() });
+    }
+    if t.chance(1, 3) && cfg.docs.is_empty() {
+        cfg.docs.push(DocSpec::default());
+    }
+    let n = t.range(1, 4);
+    for _ in 0..n {
+        let nth = if t.chance(1, 2) { None } else { Some(t.below(4)) };
+        let kind = *t.pick(&[Kind::Element, Kind::Element, Kind::Element, Kind::Text, Kind::Comment, Kind::EndTag]);
+        let (every_chunk, op) = match kind {
+            Kind::Element => (false, element_op(t)),
+            Kind::Text => {
+                if t.chance(1, 4) {
+                    (true, Op::Remove)
+                } else {
+                    let mut op = token_op(t);
+                    if matches!(op, Op::SetText(_)) {
+                        op = Op::Remove;
+                    }
+                    (false, op)
+                }
+            }
+            _ => (false, token_op(t)),
+        };
+        let so = ScriptOp { kind, nth, every_chunk, op };
+        let use_doc = !cfg.docs.is_empty() && matches!(kind, Kind::Text | Kind::Comment) && t.chance(1, 2);
+        if use_doc {
+            let i = t.below(cfg.docs.len());
+            cfg.docs[i].ops.push(so);
+        } else {
+            let i = t.below(cfg.sels.len());
+            cfg.sels[i].ops.push(so);
+        }
+    }
+    if t.chance(1, 5) {
+        if cfg.docs.is_empty() {
+            cfg.docs.push(DocSpec::default());
+        }
+        cfg.docs[0].ops.push(ScriptOp { kind: Kind::DocEnd, nth: None, every_chunk: false, op: Op::Append(gstr(t), ct(t)) });
+    }
+}
